@@ -24,8 +24,9 @@ type Session struct {
 	Challenge []byte
 	Nonces    [][]byte
 	KeyID     []byte
-	Mode      string // "random" or "withblind"
-	ArgError  error  // request creation wrote to one of its byte arguments
+	Mode      string   // "random" or "withblind"
+	Blinds    [][]byte // type 5, fixed-blind creation: the blinds
+	ArgError  error    // request creation wrote to one of its byte arguments
 
 	OKey *oprf.PrivateKey // types 1, 5
 	RKey *rsa.PrivateKey  // types 2, 3
@@ -107,9 +108,12 @@ type SessionOpts struct {
 	OKey         *oprf.PrivateKey
 	RKeyIdx      int             // -1: draw
 	RKey         *rsa.PrivateKey // overrides RKeyIdx (keys outside the pool, e.g. the small-exponent ones)
-	Challenge    []byte
-	Issuer3      *type3.RateLimitedIssuer // reuse an issuer (same name key, origins)
-	Origin       *string
+	// type 5: a second request that shares its FIRST nonce and blind (hence its first blinded element) with another one
+	Nonce0, Blind0 []byte
+	ForceWithBlind bool
+	Challenge      []byte
+	Issuer3        *type3.RateLimitedIssuer // reuse an issuer (same name key, origins)
+	Origin         *string
 }
 
 func OriginName() *rapid.Generator[string] {
@@ -165,7 +169,7 @@ func newSession(t *rapid.T, typ uint16, o SessionOpts) (*Session, error) {
 	} else {
 		s.Challenge = Challenge().Draw(t, "challenge")
 	}
-	withBlind := rapid.Bool().Draw(t, "withBlind")
+	withBlind := rapid.Bool().Draw(t, "withBlind") || o.ForceWithBlind
 	s.Mode = "random"
 	nTok := 1
 	if typ == 5 {
@@ -180,6 +184,9 @@ func newSession(t *rapid.T, typ uint16, o SessionOpts) (*Session, error) {
 	}
 	for i := 0; i < nTok; i++ {
 		s.Nonces = append(s.Nonces, Bytes32().Draw(t, "nonce"))
+	}
+	if o.Nonce0 != nil {
+		s.Nonces[0] = append([]byte{}, o.Nonce0...)
 	}
 	// Argument buffers. The library never gets the harness's own slices: every byte argument of request creation
 	// is carved out of ONE arena, each slice's capacity reaching to the end of the arena (so the arguments lie in
@@ -256,6 +263,10 @@ func newSession(t *rapid.T, typ uint16, o SessionOpts) (*Session, error) {
 			for i := range blinds {
 				blinds[i] = RistrettoScalar().Draw(t, "blind")
 			}
+			if o.Blind0 != nil {
+				blinds[0] = append([]byte{}, o.Blind0...)
+			}
+			s.Blinds = blinds
 			a := ar.layout(append(append([][]byte{s.Challenge, s.KeyID}, s.Nonces...), blinds...)...)
 			s.State5, err = cl.C5.CreateTokenRequestWithBlinds(a[0], a[2:2+nTok], a[1], issuer.TokenKey(), a[2+nTok:])
 		} else {
